@@ -821,11 +821,25 @@ def _unify_var(
     """Helper function for unification of type or const variables."""
     if var in subst:
         return unify(subst[var], t, subst)
-    if isinstance(t, ExistentialTypeVar) and t in subst:
+    if isinstance(t, ExistentialVar) and t in subst:
         return unify(var, subst[t], subst)
-    if var in t.unsolved_vars:
+    if _occurs(var, t, subst):
         return None
     return {var: t, **subst}
+
+
+def _occurs(var: ExistentialVar, t: Type | Const, subst: "Subst") -> bool:
+    """Occurs check that also looks through variables that are already solved."""
+    seen: set[ExistentialVar] = set()
+    stack: list[Type | Const] = [t]
+    while stack:
+        for v in stack.pop().unsolved_vars:
+            if v == var:
+                return True
+            if v in subst and v not in seen:
+                seen.add(v)
+                stack.append(subst[v])
+    return False
 
 
 def _unify_args(
